@@ -155,6 +155,12 @@ Record wf_src (P : wprog) : Prop := {
   wf_fresh : forall g, In g (wp_groups P) -> ~ In (snd g) (flat_map fst (blocks P));
   wf_atoms : forall id, In id (atoms_of (wp_graph P)) -> In id (flat_map fst (blocks P)) }.
 
+Definition wf_srcb (P : wprog) : bool :=
+  let mids := flat_map fst (blocks P) in
+  nodupb mids && nodupb (map snd (wp_groups P)) &&
+  forallb (fun g => negb (existsb (N.eqb (snd g)) mids)) (wp_groups P) &&
+  forallb (fun id => existsb (N.eqb id) mids) (atoms_of (wp_graph P)).
+
 (* source side: the extra identifiers are not atoms of the cyclic program *)
 Definition extras_fresh (P : wprog) : Prop :=
   forall b, In b (wp_groups P) -> ~ In (snd b) (atoms_of (wp_graph P)).
